@@ -418,6 +418,11 @@ def run(ctx):
     ctx.check(diff == T.ZERO, "AFF", f"{ga.qualname} / AFF / cyclic sum unchanged by (x+a, y+b)", ctx.where(ga),
               "difference of the cyclic sums normalises to 0", f"the signed area changes under translation by {T.show(diff)[:120]} per vertex")
 
+    ctx.clause("both systems are assembled anew at every build: positions, tensions and options of an earlier call cannot survive a transformation")
+    rules.fresh_build(ctx, "force")
+    rules.fresh_build(ctx, "pressure")
+
+
 
 _E, _P, _T = "forsys/edge.py", "forsys/fmatrix.py", "forsys/time_series.py"
 PINNED = [
